@@ -236,11 +236,30 @@ type solverSpec struct {
 	args func(file string, timeoutS int) []string
 }
 
+// solverSeed: 0 on the first attempt; the second attempt of an undecided obligation runs the solvers with
+// another random seed (the same file may send a solver down a diverging instantiation path again otherwise).
+var solverSeed int
+
+func seedArgsZ3() []string {
+	if solverSeed == 0 {
+		return nil
+	}
+	return []string{fmt.Sprintf("smt.random_seed=%d", solverSeed), fmt.Sprintf("sat.random_seed=%d", solverSeed)}
+}
+
 var solvers = []solverSpec{
-	{"z3-new", func(f string, t int) []string { return []string{"z3-new", fmt.Sprintf("-T:%d", t), f} }},
-	{"z3", func(f string, t int) []string { return []string{"/usr/bin/z3", fmt.Sprintf("-T:%d", t), f} }},
+	{"z3-new", func(f string, t int) []string {
+		return append(append([]string{"z3-new", fmt.Sprintf("-T:%d", t)}, seedArgsZ3()...), f)
+	}},
+	{"z3", func(f string, t int) []string {
+		return append(append([]string{"/usr/bin/z3", fmt.Sprintf("-T:%d", t)}, seedArgsZ3()...), f)
+	}},
 	{"cvc5", func(f string, t int) []string {
-		return []string{"cvc5", "--incremental", fmt.Sprintf("--tlimit=%d", t*1000), f}
+		a := []string{"cvc5", "--incremental", fmt.Sprintf("--tlimit=%d", t*1000)}
+		if solverSeed != 0 {
+			a = append(a, fmt.Sprintf("--seed=%d", solverSeed))
+		}
+		return append(a, f)
 	}},
 }
 
